@@ -335,6 +335,128 @@ package ast
 //@   pure
 //@   modifies nothing
 //
+// C16 - builders are derived completely and type-correctly from the schemas.
+//
+// fieldPath(p, f): p is the one-item path that targets field f.
+//@ spec fieldPath(p, f) = len(p) == 1 && p[0].Identifier == f.Name && p[0].Type == f.Type && p[0].Index == nil && p[0].TypeHint == nil && !p[0].Root
+//
+// fieldAssignment(a, f): a assigns the argument (f.Name, f.Type) to field f, directly, with exactly
+// the constraints declared by f's scalar type (none for other kinds).
+//@ spec fieldAssignment(a, f) = fieldPath(a.Path, f) && a.Method == DirectAssignment && len(a.NilChecks) == 0
+//@     && a.Value.Argument != nil && a.Value.Argument.Name == f.Name && a.Value.Argument.Type == f.Type && a.Value.Constant == nil && a.Value.Envelope == nil
+//@     && (f.Type.Kind != KindScalar ==> len(a.Constraints) == 0)
+//@     && (f.Type.Kind == KindScalar ==> len(a.Constraints) == len(f.Type.Scalar.Constraints)
+//@          && (forall c: int :: 0 <= c && c < len(a.Constraints) ==> a.Constraints[c].Op == f.Type.Scalar.Constraints[c].Op
+//@                && a.Constraints[c].Parameter == f.Type.Scalar.Constraints[c].Args[0]
+//@                && a.Constraints[c].Argument.Name == f.Name && a.Constraints[c].Argument.Type == f.Type))
+//
+// constantAssignment(a, f, v): a sets field f to the constant v in the constructor.
+//@ spec constantAssignment(a, f, v) = fieldPath(a.Path, f) && a.Method == DirectAssignment && len(a.NilChecks) == 0 && len(a.Constraints) == 0
+//@     && a.Value.Argument == nil && a.Value.Envelope == nil && a.Value.Constant == v
+//
+// fieldOption(o, f): o is the option derived from field f - one argument with the field's name and
+// type, the field's default, one assignment targeting the field.
+//@ spec fieldOption(o, f) = o.Name == f.Name && o.Comments == f.Comments && len(o.VeneerTrail) == 0
+//@     && len(o.Args) == 1 && o.Args[0].Name == f.Name && o.Args[0].Type == f.Type
+//@     && len(o.Assignments) == 1 && fieldAssignment(o.Assignments[0], f)
+//@     && (f.Type.Default == nil ==> o.Default == nil)
+//@     && (f.Type.Default != nil ==> o.Default != nil && len(o.Default.ArgsValues) == 1 && o.Default.ArgsValues[0] == f.Type.Default)
+//
+//@ func PathFromStructField
+//@   property C04 C16
+//@   modifies nothing
+//@   ensures  path: fieldPath(result, field)
+//@   ensures  fresh: fresh(result)
+//
+// The assignment helpers are expanded at their call sites (their option loops are then unrolled
+// over the literal option lists the derivation passes).
+//@ func ConstantAssignment
+//@   property C04
+//@   inline
+//
+//@ func ArgumentAssignment
+//@   property C04
+//@   inline
+//
+//@ func FieldAssignment
+//@   property C04
+//@   inline
+//
+//@ func WithTypeConstraints$1
+//@   property C16
+//@   requires arg: assignment != nil && assignment.Value.Argument != nil
+//@   modifies assignment.Constraints
+//@   ensures  len: len(assignment.Constraints) == len(constraints)
+//@   ensures  each: forall c: int :: 0 <= c && c < len(constraints) ==> assignment.Constraints[c].Op == constraints[c].Op && assignment.Constraints[c].Parameter == constraints[c].Args[0] && assignment.Constraints[c].Argument.Name == old(assignment.Value.Argument.Name) && assignment.Constraints[c].Argument.Type == old(assignment.Value.Argument.Type)
+//@   ensures  fresh: len(assignment.Constraints) == 0 || fresh(assignment.Constraints)
+//@   inlined-loop 0:
+//@     invariant fresh: fresh(output)
+//@     invariant len: len(output) == len(input)
+//@     invariant each: forall c: int :: 0 <= c && c <= $i ==> output[c].Op == input[c].Op && output[c].Parameter == input[c].Args[0] && output[c].Argument.Name == old(assignment.Value.Argument.Name) && output[c].Argument.Type == old(assignment.Value.Argument.Type)
+//
+//@ func (*BuilderGenerator).structFieldToOption
+//@   property C04 C16
+//@   modifies nothing
+//@   ensures  option: fieldOption(result, field)
+//@   ensures  fresh: fresh(result.Assignments) && fresh(result.Args) && fresh(result.Assignments[0].Path) && fresh(result.Assignments[0].Value.Argument)
+//
+// Classification of a struct field by the derivation (first match wins):
+//   constField:    the field's own type is a concrete scalar        -> constructor constant
+//   refConstField: required, non-nullable reference to a concrete scalar -> constructor constant
+//   skipField:     constant reference                                -> the type's own constructor sets it
+//   optionField:   everything else                                   -> exactly one option
+//@ spec constField(f) = f.Type.Kind == KindScalar && f.Type.Scalar.Value != nil
+//@ spec refConstField(ss, f) = !constField(f) && f.Required && !f.Type.Nullable && f.Type.Kind == KindRef && call("ast.Schemas.ResolveToType", ss, f.Type).Kind == KindScalar && call("ast.Schemas.ResolveToType", ss, f.Type).Scalar.Value != nil
+//@ spec fixedField(ss, f) = constField(f) || refConstField(ss, f)
+//@ spec fixedValue(ss, f) = ite(constField(f), f.Type.Scalar.Value, call("ast.Schemas.ResolveToType", ss, f.Type).Scalar.Value)
+//@ spec optionField(ss, f) = !fixedField(ss, f) && f.Type.Kind != KindConstantRef
+//
+// Every field is covered exactly once: optOf/fieldOfOpt are mutually inverse between the option fields
+// and the options, cstOf/fieldOfCst between the fixed fields and the constructor assignments.
+//@ spec optionsCover(ss, fields, n, opts) = existsfn optOf: int -> int :: existsfn fieldOfOpt: int -> int ::
+//@        (forall i: int :: 0 <= i && i < n && optionField(ss, fields[i]) ==> 0 <= optOf(i) && optOf(i) < len(opts) && fieldOfOpt(optOf(i)) == i && fieldOption(opts[optOf(i)], fields[i]))
+//@     && (forall j: int :: 0 <= j && j < len(opts) ==> 0 <= fieldOfOpt(j) && fieldOfOpt(j) < n && optionField(ss, fields[fieldOfOpt(j)]) && optOf(fieldOfOpt(j)) == j)
+//@ spec constantsCover(ss, fields, n, asgs) = existsfn cstOf: int -> int :: existsfn fieldOfCst: int -> int ::
+//@        (forall i: int :: 0 <= i && i < n && fixedField(ss, fields[i]) ==> 0 <= cstOf(i) && cstOf(i) < len(asgs) && fieldOfCst(cstOf(i)) == i && constantAssignment(asgs[cstOf(i)], fields[i], fixedValue(ss, fields[i])))
+//@     && (forall j: int :: 0 <= j && j < len(asgs) ==> 0 <= fieldOfCst(j) && fieldOfCst(j) < n && fixedField(ss, fields[fieldOfCst(j)]) && cstOf(fieldOfCst(j)) == j)
+//
 //@ func (*BuilderGenerator).structObjectToBuilder
 //@   property C04 C16
 //@   requires resolved: call("ast.Schemas.ResolveToType", schemas, object.Type).Kind == KindStruct
+//@   requires schema: schema != nil
+//@   modifies nothing
+//@   ensures  identity: result.Package == schema.Package && result.For == object && result.Name == object.Name
+//@   ensures  bare: len(result.Properties) == 0 && len(result.VeneerTrail) == 0 && len(result.Factories) == 0 && len(result.Constructor.Args) == 0
+//@   ensures  options: optionsCover(schemas, call("ast.Schemas.ResolveToType", schemas, object.Type).Struct.Fields, len(call("ast.Schemas.ResolveToType", schemas, object.Type).Struct.Fields), result.Options)
+//@   ensures  constants: constantsCover(schemas, call("ast.Schemas.ResolveToType", schemas, object.Type).Struct.Fields, len(call("ast.Schemas.ResolveToType", schemas, object.Type).Struct.Fields), result.Constructor.Assignments)
+//@   loop 0:
+//@     invariant identity: builder.Package == schema.Package && builder.For == object && builder.Name == object.Name
+//@     invariant bare: len(builder.Properties) == 0 && len(builder.VeneerTrail) == 0 && len(builder.Factories) == 0 && len(builder.Constructor.Args) == 0
+//@     invariant fresh: (base(builder.Options) == 0 || fresh(builder.Options)) && (base(builder.Constructor.Assignments) == 0 || fresh(builder.Constructor.Assignments))
+//@     invariant sep: forall j: int :: 0 <= j && j < len(builder.Options) ==> base(builder.Options[j].Assignments) != base(builder.Constructor.Assignments) || base(builder.Constructor.Assignments) == 0
+//@     invariant options: optionsCover(schemas, structType.Fields, $i + 1, builder.Options) witness optOf(i) := ite(i == $i, len(builder.Options) - 1, skolem("optOf", "loop0", i)) witness fieldOfOpt(j) := ite(j == len(builder.Options) - 1 && optionField(schemas, structType.Fields[$i]), $i, skolem("fieldOfOpt", "loop0", j))
+//@     invariant constants: constantsCover(schemas, structType.Fields, $i + 1, builder.Constructor.Assignments) witness cstOf(i) := ite(i == $i, len(builder.Constructor.Assignments) - 1, skolem("cstOf", "loop0", i)) witness fieldOfCst(j) := ite(j == len(builder.Constructor.Assignments) - 1 && fixedField(schemas, structType.Fields[$i]), $i, skolem("fieldOfCst", "loop0", j))
+//
+// FromAST: exactly the objects that resolve to a struct get a builder, once, in declaration order.
+// srcS/srcP give the schema index and the position (in declaration order) of the object a builder
+// was derived from; (ns, np) bounds the part of the input covered so far (lexicographically).
+//@ spec objAt(ss, s, p) = ss[s].Objects.records[ss[s].Objects.order[p]]
+//@ spec structObject(ss, o) = call("ast.Schemas.ResolveToType", ss, o.Type).Kind == KindStruct
+//@ spec lexLess(s1, p1, s2, p2) = s1 < s2 || (s1 == s2 && p1 < p2)
+//@ spec buildersFor(ss, ns, np, bs) = existsfn srcS: int -> int :: existsfn srcP: int -> int ::
+//@        (forall j: int :: 0 <= j && j < len(bs) ==> 0 <= srcS(j) && srcS(j) < len(ss) && 0 <= srcP(j) && srcP(j) < len(ss[srcS(j)].Objects.order) && lexLess(srcS(j), srcP(j), ns, np)
+//@              && structObject(ss, objAt(ss, srcS(j), srcP(j))) && bs[j].For == objAt(ss, srcS(j), srcP(j)) && bs[j].Package == ss[srcS(j)].Package && bs[j].Name == bs[j].For.Name)
+//@     && (forall j1, j2: int :: 0 <= j1 && j1 < j2 && j2 < len(bs) ==> lexLess(srcS(j1), srcP(j1), srcS(j2), srcP(j2)))
+//@     && (forall s, p: int :: 0 <= s && s < len(ss) && 0 <= p && p < len(ss[s].Objects.order) && lexLess(s, p, ns, np) && structObject(ss, objAt(ss, s, p)) ==> (exists j: int @bj :: 0 <= j && j < len(bs) && srcS(j) == s && srcP(j) == p))
+//
+//@ func (*BuilderGenerator).FromAST
+//@   property C04 C16
+//@   requires schemas: forall s: int :: 0 <= s && s < len(schemas) ==> schemas[s] != nil && wf(schemas[s].Objects)
+//@   modifies nothing
+//@   ensures  exact: buildersFor(schemas, len(schemas), 0, result)
+//@   loop 0:
+//@     invariant fresh: base(builders) != 0 && fresh(builders)
+//@     invariant exact: buildersFor(schemas, $i + 1, 0, builders) witness srcS(j) := skolem("srcS", "last", j) witness srcP(j) := skolem("srcP", "last", j) witness bj := skolem("bj", "last", s, p)
+//@   inlined-loop 0:
+//@     invariant fresh: base(builders) != 0 && fresh(builders)
+//@     invariant exact: buildersFor(schemas, $outer + 1, $i + 1, builders) witness srcS(j) := ite($i >= 0 && j == len(builders) - 1 && structObject(schemas, objAt(schemas, $outer + 1, $i)), $outer + 1, skolem("srcS", "last", j)) witness srcP(j) := ite($i >= 0 && j == len(builders) - 1 && structObject(schemas, objAt(schemas, $outer + 1, $i)), $i, skolem("srcP", "last", j)) witness bj := ite(s == $outer + 1 && p == $i, len(builders) - 1, skolem("bj", "last", s, p))
